@@ -118,6 +118,16 @@ Record state : Type := mkSt {
 
 Definition init (cap : Z) : state := mkSt cap cap false 0 [] [] [] [] 0.
 
+(* Manager.__init__(prefix, capacity): `configured` is the capacity the server was started with (None / 0: not configured),
+   `avail` what get_capacity() reports for /dev/shm (findmnt AVAIL).  Not configured: everything that is available; configured
+   with more than is available: trimmed to it.  capacity and free_space both start at the resulting value. *)
+Definition configure (configured : option Z) (avail : Z) : Z :=
+  match configured with
+  | None => avail
+  | Some c => if (c =? 0)%Z then avail else if (c >? avail)%Z then avail else c
+  end.
+Definition start (configured : option Z) (avail : Z) : state := init (configure configured avail).
+
 Definition with_free (f : Z) (s : state) : state :=
   mkSt (capacity s) f (lock s) (count s) (dsets s) (segs s) (files s) (jobs s) (next_jid s).
 Definition with_lock (l : bool) (c : Z) (s : state) : state :=
@@ -422,3 +432,11 @@ Fixpoint run (s : state) (ops : list op) : list output * state :=
   end.
 
 Definition exec (s : state) (ops : list op) : state := snd (run s ops).
+
+(* the op lists of the harness carry scripted instants; the store reads them off a clock whose epoch is `e` *)
+Definition shift_op (e : Z) (o : op) : op :=
+  match o with
+  | Add k size now => Add k size (now + e)
+  | Get k now u => Get k (now + e) u
+  | _ => o
+  end.
